@@ -397,8 +397,11 @@ package anytype
 //@   requires invL(ego)
 //@   let n := len(ego.val)
 //@   let t0 := trlen()
+//@   requires inv0: RInv(initial, 0)
+//@   requires step: forall acc val, i int :: {RInv(acc, i)} 0 <= i && i < n && RInv(acc, i) ==> RInv(cbret(acc, valOf(ego.val[i])), i + 1)
 //@   assigns  nothing
 //@   panics_iff false
+//@   ensures  inv: RInv(result, n)
 //@   ensures  count: trlen() == t0 + n
 //@   ensures  elems: forall j int :: t0 <= j && j < t0 + n ==> trB(j) == valOf(ego.val[j - t0])
 //@   ensures  chain0: n > 0 ==> trA(t0) == initial
@@ -413,6 +416,7 @@ package anytype
 //@     invariant chain0: idx > 0 ==> trA(t0) == initial
 //@     invariant chain: forall j int :: t0 < j && j < t0 + idx ==> trA(j) == cbret(trA(j-1), trB(j-1))
 //@     invariant acc: result == ((idx == 0) ? initial : cbret(trA(t0+idx-1), trB(t0+idx-1)))
+//@     invariant rinv: RInv(result, idx)
 //@     invariant prefix: forall j int :: 0 <= j && j < t0 ==> trA(j) == old(trA(j)) && trB(j) == old(trB(j))
 //@     decreases n - idx
 
@@ -423,8 +427,11 @@ package anytype
 //@   let A := mem(ego.val)
 //@   let t0 := trlen()
 //@   let c := cntK(A, KIND, n)
+//@   requires inv0: RInv(WRAP(initial), 0)
+//@   requires step: forall acc val, i int :: {RInv(acc, i)} 0 <= i && i < n && RInv(acc, i) ==> (TEST(ego.val[i]) ? RInv(cbret(acc, ARG(ego.val[i])), i + 1) : RInv(acc, i + 1))
 //@   assigns  nothing
 //@   panics_iff false
+//@   ensures  inv: RInv(WRAP(result), n)
 //@   ensures  count: trlen() == t0 + c
 //@   ensures  elems: forall k int :: {cntK(A, KIND, k)} 0 <= k && k < n && TEST(ego.val[k]) ==> 0 <= cntK(A, KIND, k) && cntK(A, KIND, k) < c && trB(t0 + cntK(A, KIND, k)) == ARG(ego.val[k])
 //@   ensures  chain0: c > 0 ==> trA(t0) == WRAP(initial)
@@ -440,6 +447,7 @@ package anytype
 //@     invariant chain0: ci > 0 ==> trA(t0) == WRAP(initial)
 //@     invariant chain: forall j int :: t0 < j && j < t0 + ci ==> trA(j) == cbret(trA(j-1), trB(j-1))
 //@     invariant acc: WRAP(result) == ((ci == 0) ? WRAP(initial) : cbret(trA(t0+ci-1), trB(t0+ci-1)))
+//@     invariant rinv: RInv(WRAP(result), idx)
 //@     invariant prefix: forall j int :: 0 <= j && j < t0 ==> trA(j) == old(trA(j)) && trB(j) == old(trB(j))
 //@     decreases n - idx
 //@ end
@@ -524,3 +532,53 @@ package anytype
 //@ instantiate filter-kind(FilterStrings, TString)
 //@ instantiate filter-kind(FilterInts, TInt)
 //@ instantiate filter-kind(FilterFloats, TFloat)
+
+// ---------------------------------------------------------------------------
+// List: numeric aggregates (C18). Reference = the left fold in index order;
+// int accumulation wraps like Go's int (flag wraps), floats use Go's + and *.
+// ---------------------------------------------------------------------------
+
+//@ template fold-kind(NAME, FOLD)
+//@ func (*list).NAME pure wraps [C18]
+//@   requires invL(ego)
+//@   let n := len(ego.val)
+//@   let A := mem(ego.val)
+//@   panics_iff false
+//@   ensures  fold: result == FOLD(A, n)
+//@   loop 1
+//@     invariant range: 0 <= idx && idx <= n
+//@     invariant acc: result == FOLD(A, idx)
+//@     decreases n - idx
+//@ end
+//@ instantiate fold-kind(IntSum, foldSumI)
+//@ instantiate fold-kind(IntProd, foldProdI)
+//@ instantiate fold-kind(Sum, foldSumF)
+//@ instantiate fold-kind(Prod, foldProdF)
+
+//@ func (*list).Avg pure [C18]
+//@   requires invL(ego)
+//@   panics_iff false
+//@   ensures  mean: result == fdiv(foldSumF(mem(ego.val), len(ego.val)), i2f(len(ego.val)))
+
+// Minima / maxima: ReduceInts / Reduce with a closure of this package. The closure is verified
+// against its own contract; the Reduce contracts are parametric in the invariant RInv, which the
+// caller fixes with `define`.
+//@ template int-extremum(NAME, START, CMP, ORD, ACCU)
+//@ func (*list).NAME$1 [C18]
+//@   assigns  cell(present)
+//@   panics_iff false
+//@   ensures  set: deref(present) == true
+//@   returns  pick: result == ((item CMP ACCU) ? item : ACCU)
+//@ func (*list).NAME callbacks [C18]
+//@   requires invL(ego)
+//@   let n := len(ego.val)
+//@   let A := mem(ego.val)
+//@   define RInv(acc val, i int) := isVInt(acc) && (forall j int :: 0 <= j && j < i && isWInt(ego.val[j]) ==> vint(acc) ORD wint(ego.val[j])) && (((forall j int :: 0 <= j && j < i ==> !isWInt(ego.val[j])) && vint(acc) == START) || (exists j int :: 0 <= j && j < i && isWInt(ego.val[j]) && wint(ego.val[j]) == vint(acc)))
+//@   assigns  nothing
+//@   panics_iff false
+//@   ensures  none: cntK(A, TInt, n) == 0 ==> result == 0
+//@   ensures  bound: cntK(A, TInt, n) > 0 ==> (forall j int :: 0 <= j && j < n && isWInt(ego.val[j]) ==> result ORD wint(ego.val[j]))
+//@   ensures  attained: cntK(A, TInt, n) > 0 ==> (exists j int :: 0 <= j && j < n && isWInt(ego.val[j]) && result == wint(ego.val[j]))
+//@ end
+//@ instantiate int-extremum(IntMin, MaxInt, <, <=, min)
+//@ instantiate int-extremum(IntMax, MinInt, >, >=, max)
